@@ -1,6 +1,9 @@
 pub mod aio;
 #[cfg(not(miri))]
 pub mod alloc;
+#[cfg(miri)]
+#[path = "alloc_stub.rs"]
+pub mod alloc;
 pub mod driver;
 pub mod evidence;
 pub mod run;
